@@ -215,11 +215,16 @@ def run(pid, tier, seed):
                 holds = ",".join("w%d:SendStart:%d:%d" % (w, k, 70) for k in (2, 9, nm // 2, nm - 1))
                 jobs.append((si, "hold", {"S4_VERIF_HOLD": holds}, None))
             jobs.append((si, "seeded", {"S4_VERIF_SEED": str(rng.randrange(1 << 30)), "S4_VERIF_DELAY_US": "1500"}, None))
+            # with colour the escape sequences are output too: whichever worker gets going first, the bytes are the same
+            jobs.append((si, "colour", {"_colour": True}, None))
+            for w in range(n):
+                jobs.append((si, "colour", {"_colour": True, "S4_VERIF_HOLD": "w%d:WStart:0:90" % w}, None))
 
         def do(job):
             ji, (si, label, env, plan) = job
             files, argv, sources, meta, expected, ranks, dts = sets[si]
             env = dict(env)
+            colour = env.pop("_colour", False)
             perm = env.pop("_perm", None)
             if perm is not None:
                 argv2 = [argv[i] for i in perm]
@@ -228,8 +233,8 @@ def run(pid, tier, seed):
                 dts2 = [dts[i] for i in perm]
             else:
                 argv2, src2, exp2, dts2 = argv, sources, expected, dts
-            case = Case(files, ["--color", "never"] + argv2, exp2, env=env, plan=plan,
-                        note={"set": si, "schedule": label, "meta": meta, "perm": perm}, timeout=30)
+            case = Case(files, ["--color", "always" if colour else "never"] + argv2, exp2, env=env, plan=plan,
+                        note={"set": si, "schedule": label, "meta": meta, "perm": perm, "colour": colour}, timeout=30)
             r = case.run(os.path.join(sc, "run", "j%d" % ji), trace=True)
             return case, label, r, src2, dts2, ranks
 
@@ -244,6 +249,7 @@ def run(pid, tier, seed):
         batches, cur = [], []
         plan_followed = plan_total = 0
         samples = []
+        colour_ref = {}
         for case, label, r, src2, dts2, ranks in results:
             key = (tuple(tuple(d) for d in dts2), label, str(sorted(case.env.items())), str(case.plan)[:200])
             if key not in distinct:
@@ -258,6 +264,15 @@ def run(pid, tier, seed):
             if r.crashed:
                 rep.violation("crash:%s" % label, "rc=%s stderr=%r" % (r.rc, r.err[-300:]), case.replay_record(r))
                 continue
+            if case.note.get("colour") and not r.timed_out and not r.crashed:
+                from . import c13
+                raw = r.out
+                ref = colour_ref.setdefault(case.note["set"], raw)
+                if raw != ref:
+                    rep.violation("colour-by-schedule", "--color always: the bytes on stdout (escape sequences included) differ between two "
+                                  "schedules of the same run, at byte %d" % first_diff(raw, ref), case.replay_record(r))
+                    continue
+                r.out = c13.SGR.sub(b"", raw)
             if r.out != case.expected:
                 i = first_diff(r.out, case.expected)
                 rep.violation("stdout-order:%s" % label,
@@ -446,6 +461,19 @@ def run(pid, tier, seed):
                     rep.violation("wide:stdout", "%d sources: stdout is not the stable merge" % nsrc, rec)
                 shutil.rmtree(d, ignore_errors=True)
 
+        # C01: "in the order the sources were named (command-line order; sorted path order inside a walked directory)":
+        # directories and single files interleaved on the command line, every message at one instant
+        dir_runs = 0
+        if pid == "C01":
+            from . import c15
+            for label, argv, rr, want_m in c15.mixed_argument_runs(sc, rng, 6 if tier == "quick" else 30):
+                dir_runs += 1
+                if rr.crashed or rr.timed_out:
+                    rep.violation("named-order:crash", "%s: rc=%s" % (argv, rr.rc), {"kind": "mixed-args", "argv": argv})
+                elif rr.out != want_m:
+                    rep.violation("named-order:stdout", "%s %s: tied messages are not printed in the order the sources were named (differs at byte %d)"
+                                  % (label, argv, first_diff(rr.out, want_m)), {"kind": "mixed-args", "argv": argv, "got": rr.out[:600].decode(errors="replace")})
+
         # C06: "however slowly each file can be read": one source delivers nothing for seconds (a slow device, a huge
         # compressed member) at its FileInfo, at a message in the middle, at its summary, while the printing thread waits
         slow_runs = 0
@@ -505,7 +533,7 @@ def run(pid, tier, seed):
             "rule": "distinct = (ground-truth instants per source, schedule) pairs; non-trivial = >= 2 sources with at "
                     "least one equal instant inside or across sources",
             "samples": samples, "tlc_configs": details, "tlc_plans_followed": plan_followed, "tlc_plans_run": plan_total,
-            "source_sets": nsets, "closed_pipe_runs": epipe_runs, "mixed_kind_runs": mixed_runs, "wide_runs": wide_runs, "slow_source_runs": slow_runs, "exhaustive": False,
+            "source_sets": nsets, "closed_pipe_runs": epipe_runs, "mixed_kind_runs": mixed_runs, "wide_runs": wide_runs, "slow_source_runs": slow_runs, "directory_and_file_argument_runs": dir_runs, "exhaustive": False,
             "checker_cmd": "tlc -config <generated MC cfg> S4Run.tla ; tlc -workers 1 -config <trace cfg> TraceS4Run.tla",
         }
         rep.assumptions = [
